@@ -152,7 +152,7 @@ def register(reg):
     DT0 = ("(1 if self.c1 * self.delta / tplus(old(self.iteration)) >= 1 else self.c1 * self.delta / tplus(old(self.iteration)))")
     UPD_MOD = ETG + ["*VHCT_node.u_value", "*VHCT_node.b_value", "*VHCT_node.mean_reward", "self.iteration",
                      END + ".children", "self.partition.depth", "list(self.partition.node_list)",
-                     "list(self.partition.node_list[%s.depth + 1]) if %s.depth < self.partition.depth" % (END, END)]
+                     "list(self.partition.node_list[%s.depth + 1]) when %s.depth < self.partition.depth" % (END, END)]
     OLDN = "for h in range(old(self.partition.depth) + 1) for k in range(old(len(%s[h])))" % NL
     U5 = "self.nu, self.rho, self.c, self.bound"
     AFTER = [
